@@ -51,7 +51,7 @@ def outer(path):
     return path.split('::{closure')[0]
 
 def run(ctx):
-    cfgs = ['none', 'all'] if ctx.tier == 'quick' else ['none', 'all', 'ac', 'dull', 'bright', 'doc']
+    cfgs = ['none', 'all', 'bright'] if ctx.tier == 'quick' else ['none', 'all', 'ac', 'dull', 'bright', 'doc']
     ctx.preload(cfgs)
     for cfg in cfgs:
         fs = ctx.facts(cfg)
